@@ -33,8 +33,14 @@ Proof. exact cast_float_to_integral. Qed.
 Theorem C18_identity : forall t v, cast t t v = v.
 Proof. exact cast_identity. Qed.
 Theorem C18_null : forall from to,
-  modelled_target to = true -> cast from to VNone <> VErr "AnalysisException" -> cast from to VNone = VNone.
+  cast from to VNone <> VErr "AnalysisException" -> cast from to VNone = VNone.
 Proof. exact cast_null_supported. Qed.
+(* ... and a null raises only where no value of the source type can be cast at all (non-temporal, non-string -> date) *)
+Theorem C18_null_raises_only_if_no_such_cast : forall from to,
+  cast from to VNone = VErr "AnalysisException" ->
+  to = TDate /\ from <> TString /\ from <> TDate /\
+  forall v, (forall s, v <> VStr s) -> (forall d, v <> VTup d) -> cast from to v = VErr "AnalysisException".
+Proof. exact cast_null_raises_only_if_no_such_cast. Qed.
 
 Theorem C18_string_to_integral : forall to lo hi s z,
   bounds to = Some (lo, hi) -> s <> [] -> py_int_of_str s = Some z ->
